@@ -288,7 +288,7 @@ def make_circuit_forms_harness():
     return harness
 
 
-SUB_FORMS = ["[R]", "[(RC)(RC)]", "([RC][RL])", "[R(RC)]", "[[RC]]"]       # (a single-item parallel can only be built directly)
+SUB_FORMS = ["[R]", "[(RC)(RC)]", "([RC][RL])", "[R(RC)]", "[[RC]]", "short", "open"]       # (a single-item parallel can only be built directly)
 
 
 def _sub(form: str):
@@ -300,6 +300,8 @@ def _sub(form: str):
     from pyimpspec.circuit.inductor import Inductor
     R, C, L = (lambda v: Resistor(R=v)), (lambda v: Capacitor(C=v)), (lambda v: Inductor(L=v))
     return {
+        "short": lambda: Series([]),
+        "open": lambda: None,
         "[R]": lambda: Series([R(2.0)]),
         "[(RC)(RC)]": lambda: Series([Parallel([R(3.0), C(0.5)]), Parallel([R(1.5), C(0.25)])]),
         "([RC][RL])": lambda: Parallel([Series([R(7.0), C(0.125)]), Series([R(40.0), L(0.5)])]),
@@ -322,10 +324,17 @@ def make_routes_harness():
         which = eng.choice(len(keys), "key")
         form = SUB_FORMS[eng.choice(len(SUB_FORMS), "form")]
 
-        def tlm():
+        def tlm(setter=0):
             subs = {"X_1": _sub("[R]"), "X_2": Series([]), "Z_A": None, "Z_B": None, "Zeta": _sub("[[RC]]")}
             subs[keys[which]] = _sub(form)
-            t = Tlm(**subs)
+            if setter == 0:
+                t = Tlm(**subs)
+            elif setter == 1:
+                t = Tlm()
+                t.set_subcircuits(**subs)
+            else:
+                t = Tlm()
+                t.set_subcircuits(*[x for kv in subs.items() for x in kv])
             t.set_values(L=0.5)
             return t
         f = eng.real("f", npy=True)
@@ -340,6 +349,8 @@ def make_routes_harness():
             b += Resistor(R=8.0)
             b += tlm()
         routes["builder"] = lambda: b.to_circuit()
+        routes["set_subcircuits(**kw)"] = lambda: Circuit(Series([Resistor(R=8.0), tlm(1)]))
+        routes["set_subcircuits(*pairs)"] = lambda: Circuit(Series([Resistor(R=8.0), tlm(2)]))
         routes["serialise+parse"] = lambda: parse_cdc(direct.serialize())
         routes["to_string(12)+parse"] = lambda: parse_cdc(direct.to_string(12))
         for name, make in routes.items():
@@ -395,7 +406,7 @@ def obligations(tier: str):
                               functions=funcs, expect_reach=["law"]))
     import pyimpspec.circuit.circuit_builder as cb
     obs.append(Obligation("routes", make_routes_harness(), bounds="R + general transmission line whose sub-circuit X_1|X_2|Z_A|Z_B|Zeta is one of %d shapes (incl. connections only); "
-                          "objects vs CircuitBuilder vs serialise/parse; binary-exact parameter values, symbolic frequency" % len(SUB_FORMS),
+                          "objects (constructor or set_subcircuits) vs CircuitBuilder vs serialise/parse; binary-exact parameter values, symbolic frequency" % len(SUB_FORMS),
                           functions=funcs + [cb.CircuitBuilder.to_circuit, cb.CircuitBuilder._to_string, base.Container.to_string],
                           stubs=["non-integer powers, sqrt, coth/tanh are uninterpreted with eager congruence"], expect_reach=["routes"], mode="fresh"))
     obs.append(Obligation("circuit_forms", make_circuit_forms_harness(), bounds="Circuit(Series|Parallel|Element|list of elements)",
